@@ -18,7 +18,7 @@ from harness.core import q, z, coq_list, coq_bool, coq_opt, coq_str
 PID = "C15"
 GEN_GROUPS = ["Convert", "Fit", "FitConst"]
 TARGETS = ["coq/Props/C15.vo", "coq/Model/Convert.vo"]
-CASES = {"quick": 260, "thorough": 4000}
+CASES = {"quick": 220, "thorough": 4000}
 CORR_HEADER = ("From Coq Require Import ZArith QArith List String.\n"
                "From ACN Require Import Base.Num Model.Convert.\nImport ListNotations.\n"
                "Open Scope string_scope.\nOpen Scope Q_scope.\n")
@@ -31,7 +31,10 @@ RULE = ("stream acn: get_evs on 1-4 synthetic session documents (aware datetimes
         "stream stoch: raw sample matrices (0-4 rows x 1-3 days incl. empty days, rows outside the clip bounds and "
         "invalid rows) through sample/clip_samples/generate_events/_convert_ev_matrix; "
         "stream fit: (energy, stay, voltage, period) covering closed-form / bisection / infeasible / inf branches and "
-        "every ladder capacity, fitted battery charged for the stay; non-trivial = distinct input; a case is "
+        "every ladder capacity, fitted battery charged for the stay; streams seqs/seqa: 2-3 successive generate_events / "
+        "get_evs calls that REUSE the caller's battery_params dict (and kwargs dict, documents) with different "
+        "max_battery_power / voltage / period / max_len / force_feasible, every call compared with the (stateless) "
+        "model; non-trivial = distinct input; a case is "
         "ambiguous (skipped) when an int()/floor argument is a non-integer within float error of an integer or a "
         "float decision of the fit is within 1e-9 (closed form, feasibility) / 1e-13 (bisection stop) of its threshold")
 ASSUMPTIONS = ["datetime.timestamp() of an aware datetime is its POSIX time (supplied to the model from the integer "
@@ -158,6 +161,8 @@ def bp_value(bp):
         return None
     if bp == "battery":
         return {"type": Battery}
+    if bp == "batterykw":  # an (empty) kwargs dict supplied by the caller
+        return {"type": Battery, "kwargs": {}}
     if bp == "fitkw":      # the 'kwargs' key: passed on to the battery constructor
         return {"type": Linear2StageBattery, "capacity_fn": batt_cap_fn, "kwargs": dict(FIT_KWARGS)}
     return {"type": Linear2StageBattery, "capacity_fn": batt_cap_fn}
@@ -193,12 +198,12 @@ def _ev_obs(ev):
                 bkw=[getattr(b, "_noise_level", None), getattr(b, "_transition_soc", None)])
 
 
-def run_acn(inp):
+def run_acn(inp, bp_obj="fresh", docs_obj=None):
     """get_evs with DataClient stubbed; returns dict(evs=[...]) or dict(error=tag)"""
     _imports()
     from acnportal.acnsim.events import acndata_events as ae
-    docs = []
-    for i, d in enumerate(inp["docs"]):
+    docs = [] if docs_obj is None else docs_obj
+    for i, d in enumerate(inp["docs"] if docs_obj is None else []):
         docs.append(dict(connectionTime=mkdt(d["conn"][0], d["conn"][1], d["zone"]),
                          disconnectTime=mkdt(d["disc"][0], d["disc"][1], d["zone"]),
                          kWhDelivered=d["kwh"], sessionID="sess%d" % i, spaceID="space%d" % i))
@@ -218,7 +223,8 @@ def run_acn(inp):
             try:
                 fn = ae.generate_events if inp.get("via") == "queue" else ae.get_evs
                 evs = fn("token", "site", start, start + datetime.timedelta(days=30), inp["T"], inp["V"],
-                         inp["maxP"], max_len=inp["max_len"], battery_params=bp_value(inp["bp"]),
+                         inp["maxP"], max_len=inp["max_len"],
+                         battery_params=bp_value(inp["bp"]) if bp_obj == "fresh" else bp_obj,
                          force_feasible=inp["ff"])
             except Exception as e:  # noqa
                 return dict(error=err_tag(e))
@@ -236,7 +242,7 @@ def run_acn(inp):
         ae.DataClient = orig
 
 
-def run_stoch(inp):
+def run_stoch(inp, bp_obj="fresh"):
     import numpy as np
     from acnportal.acnsim.events.stochastic_events import StochasticEvents, GaussianMixtureEvents
     days = [np.array(d, dtype=float).reshape((len(d), 3)) for d in inp["days"]]
@@ -269,7 +275,8 @@ def run_stoch(inp):
         warnings.simplefilter("ignore")
         try:
             queue = gen.generate_events([len(d) for d in days], inp["T"], inp["V"], inp["maxP"],
-                                        max_len=inp["max_len"], battery_params=bp_value(inp["bp"]),
+                                        max_len=inp["max_len"],
+                                        battery_params=bp_value(inp["bp"]) if bp_obj == "fresh" else bp_obj,
                                         force_feasible=inp["ff"])
         except Exception as e:  # noqa
             return dict(error=err_tag(e))
@@ -540,7 +547,7 @@ def stoch_ambiguous(inp, impl):
         for v in (a * pph, (a + d) * pph):
             if floor_ambiguous(v, F(1, 10 ** 9) * max(1, abs(v))):
                 return True
-    if inp["bp"] == "fit":
+    if is_fit(inp["bp"]):
         if "evs" in impl:
             for o in impl["evs"]:
                 if fit_margin(o["requested"], o["departure"] - o["arrival"], inp["V"], T):
@@ -615,6 +622,105 @@ CORPUS_STOCH = [dict(stream="stoch", cls="gmm", clip=[0.0, 24.0, 0.0833, 48.0, 0
                      max_len=1, ff=True, bp="none", days=[[[6.5, 8, 10], [8.3, 6.05, 3], [10, 3, 15]]])]
 
 
+# ---------------------------------------------------------------------------------------------
+# sequences of calls that REUSE the caller's argument objects (battery_params dict and its kwargs
+# dict, the generator object, the document dicts) with different numeric arguments: a call must
+# behave like an independent call (the model is stateless) and leave the caller's objects alone
+# ---------------------------------------------------------------------------------------------
+def snapshot(bpv):
+    if bpv is None:
+        return None
+    return dict(keys=sorted(bpv.keys()), type=bpv["type"].__name__,
+                kwargs=(None if "kwargs" not in bpv else dict(bpv["kwargs"])))
+
+
+def run_seq(inp):
+    """returns [impl per call]; impl has the extra keys bp_before / bp_after (and docs_same)"""
+    bpv = bp_value(inp["bp"])
+    outs = []
+    docs_obj = None
+    if inp["path"] == "acn" and inp.get("share_docs"):
+        _imports()
+        d0 = inp["calls"][0]["docs"]
+        docs_obj = [dict(connectionTime=mkdt(d["conn"][0], d["conn"][1], d["zone"]),
+                         disconnectTime=mkdt(d["disc"][0], d["disc"][1], d["zone"]),
+                         kWhDelivered=d["kwh"], sessionID="sess%d" % i, spaceID="space%d" % i)
+                    for i, d in enumerate(d0)]
+    for call in inp["calls"]:
+        before = snapshot(bpv)
+        docs_before = None if docs_obj is None else [dict(d) for d in docs_obj]
+        if inp["path"] == "stoch":
+            impl = run_stoch(call, bp_obj=bpv)
+        else:
+            impl = run_acn(call, bp_obj=bpv, docs_obj=docs_obj)
+        impl["bp_before"], impl["bp_after"] = before, snapshot(bpv)
+        if docs_obj is not None:
+            impl["docs_same"] = (docs_before == [dict(d) for d in docs_obj])
+        outs.append(impl)
+    return outs
+
+
+def gen_seq_input(rng, path):
+    bp = rng.choice(["battery", "battery", "batterykw", "fit", "fitkw", "none"])
+    n = rng.choice([2, 2, 3])
+    calls = []
+    if path == "stoch":
+        base = gen_stoch_input(rng)
+        powers = rng.sample([3.3, 6.6, 7, 10, 50], n)
+        for k in range(n):
+            c = gen_stoch_input(rng)
+            c.update(bp=bp, cls=base["cls"], clip=base["clip"], maxP=powers[k])
+            if rng.random() < 0.7:
+                c["ff"] = True
+            if rng.random() < 0.5:
+                c["days"] = base["days"]             # the same draws again (a parameter sweep)
+            calls.append(c)
+        return dict(stream="seq", path="stoch", bp=bp, calls=calls)
+    base = gen_acn_input(rng)
+    share = rng.random() < 0.6
+    powers = rng.sample([3.3, 6.6, 7, 7.68, 10, 50], n)
+    for k in range(n):
+        c = gen_acn_input(rng)
+        c.update(bp=bp, maxP=powers[k])
+        if share:
+            c.update(docs=base["docs"], start=base["start"], zone=base["zone"])
+        if rng.random() < 0.7:
+            c["ff"] = True
+        calls.append(c)
+    return dict(stream="seq", path="acn", bp=bp, calls=calls, share_docs=share)
+
+
+def make_seq_case(inp):
+    impls = run_seq(inp)
+    stoch = inp["path"] == "stoch"
+    amb = any((stoch_ambiguous if stoch else acn_ambiguous)(c, i) for c, i in zip(inp["calls"], impls))
+    coq = coq_list([(stoch_coq if stoch else acn_coq)(c, i) for c, i in zip(inp["calls"], impls)])
+    kind = "seq/%s/%s/%d%s" % (inp["path"], inp["bp"], len(inp["calls"]),
+                               "/error" if any("error" in i for i in impls) else "")
+    return dict(input=inp, impl=impls, coq=coq, ambiguous=amb, kind=kind, sig=inp, nontrivial=True)
+
+
+def monitor_seq(inp, impls):
+    for k, (c, i) in enumerate(zip(inp["calls"], impls)):
+        r = (monitor_stoch if inp["path"] == "stoch" else monitor_acn)(c, i)
+        if r:
+            return "call %d of %d (same battery_params object%s): %s" % (
+                k + 1, len(impls), "" if i["bp_before"] == impls[0]["bp_before"] else
+                ", which an earlier call changed to %r" % (i["bp_before"],), r)
+    for k, (c, i) in enumerate(zip(inp["calls"], impls)):
+        if i["bp_after"] != i["bp_before"]:
+            return ("call %d of %d modified the caller's battery_params: %r -> %r"
+                    % (k + 1, len(impls), i["bp_before"], i["bp_after"]))
+        if i.get("docs_same") is False:
+            return "call %d of %d modified the caller's session documents" % (k + 1, len(impls))
+    return None
+
+
+CORPUS_SEQ = [dict(stream="seq", path="stoch", bp="battery", calls=[
+    dict(stream="stoch", cls="sub", clip=[0.0, 24.0, 0.0833, 48.0, 0.5, 150.0], T=5, V=208, maxP=p, max_len=None,
+         ff=True, bp="battery", days=[[[6.5, 1.0, 10.0], [8.3, 6.05, 3.0], [10.0, 2.0, 12.0]]]) for p in (3.3, 6.6)])]
+
+
 def corpus(stream):
     """corpus/C15/*.json (minimised past findings / disagreements) — always run first"""
     import glob
@@ -641,7 +747,11 @@ def extra_streams(rng, tier):
         [make_stoch_case(gen_stoch_input(rng)) for _ in range(n // 2)]
     fit = [make_fit_case(i) for i in corpus("fit") + CORPUS_FIT] + [make_fit_case(gen_fit_input(rng)) for _ in range(n // 2)]
     hdr = CORR_HEADER
-    return [("stoch", hdr, "check_c15_stoch", stoch), ("fit", hdr, "check_c15_fit", fit)]
+    nseq = max(20, n // 8)
+    seq_s = [make_seq_case(i) for i in CORPUS_SEQ] + [make_seq_case(gen_seq_input(rng, "stoch")) for _ in range(nseq)]
+    seq_a = [make_seq_case(gen_seq_input(rng, "acn")) for _ in range(nseq // 2)]
+    return [("stoch", hdr, "check_c15_stoch", stoch), ("fit", hdr, "check_c15_fit", fit),
+            ("seqs", hdr, "(forallb check_c15_stoch)", seq_s), ("seqa", hdr, "(forallb check_c15)", seq_a)]
 
 
 # ---------------------------------------------------------------------------------------------
@@ -813,6 +923,11 @@ def monitor_stoch(inp, impl):
             return "row %d: requested %r, expected %r" % (w[0], o["requested"], float(w[3]))
         if o["station"] != "station_%d" % w[0]:
             return "station id"
+        if not close(o["max_power"], inp["maxP"]):
+            return "row %d: battery max power %r is not this call's max_battery_power %r" % (w[0], o["max_power"], inp["maxP"])
+        if inp["ff"] and F(o["requested"]) > F(o["max_power"]) * (o["departure"] - o["arrival"]) * F(T) / 60 * (1 + REL):
+            return ("row %d: force_feasible request %r kWh is not deliverable by its battery (%r kW) in %d periods"
+                    % (w[0], o["requested"], o["max_power"], o["departure"] - o["arrival"]))
         r = check_battery(inp["bp"], o, inp["V"], T)
         if r:
             return r
@@ -869,16 +984,17 @@ def monitor(case):
     if case.get("ambiguous"):
         return None
     inp, impl = case["input"], case["impl"]
-    return {"acn": monitor_acn, "stoch": monitor_stoch, "fit": monitor_fit}[inp["stream"]](inp, impl)
+    return {"acn": monitor_acn, "stoch": monitor_stoch, "fit": monitor_fit, "seq": monitor_seq}[inp["stream"]](inp, impl)
 
 
 def make_case(inp):
-    return {"acn": make_acn_case, "stoch": make_stoch_case, "fit": make_fit_case}[inp["stream"]](inp)
+    return {"acn": make_acn_case, "stoch": make_stoch_case, "fit": make_fit_case, "seq": make_seq_case}[inp["stream"]](inp)
 
 
 def search(rng, budget_s, broken):
     t0 = time.time()
-    gens = [gen_acn_input, gen_stoch_input, gen_fit_input]
+    gens = [lambda r: gen_seq_input(r, "stoch"), lambda r: gen_seq_input(r, "acn"),
+            gen_acn_input, gen_stoch_input, gen_fit_input]
     while time.time() - t0 < budget_s:
         for g in gens:
             for _ in range(60):
